@@ -45,7 +45,8 @@ def build(p):
         dyn = isinstance(count, dict)
         cfn = CountFn(count["script"]) if dyn else None
         if flavour == "manual":
-            plan = {j + 1: {"dur": jb["D"], "cancellable": jb.get("C", False)} for j, jb in enumerate(jobs)}
+            plan = {j + 1: {"dur": jb["D"], "cancellable": jb.get("C", False), "submit_delay": jb.get("SD", 0)}
+                    for j, jb in enumerate(jobs)}
             base = ManualExecutor(plan, tag="tap")
         else:
             base = H.TapExecutor(Executors.thread_pool(max_workers=p.get("workers", 4), name="p"), "tap")
